@@ -15,7 +15,7 @@ from symex.api import obligation
 
 TWO_PI = 2.0 * math.pi
 ASSUMPTIONS = [
-    "lanelet networks: four concrete layouts (disjoint, edge-adjacent, overlapping, one curved 3-vertex lanelet) x four "
+    "lanelet networks: five concrete layouts (disjoint, edge-adjacent, overlapping, two coincident lanelets, one curved 3-vertex lanelet) x four "
     "construction routes (from a list, lanelet by lanelet, deep copy, pickle state round trip); query points / shapes symbolic",
     "shapely is replaced by shapely-lite (closed-set predicates; Point.buffer(r) is the exact disc); the oracle is written "
     "independently: per-segment quadrilaterals for lanelets, separating axes for convex/convex intersection",
@@ -116,6 +116,8 @@ LAYOUTS = {
     "adjacent": {1: ([[0.0, 0.0], [10.0, 0.0]], [[0.0, 3.0], [10.0, 3.0]]), 2: ([[10.0, 0.0], [20.0, 1.0]], [[10.0, 3.0], [20.0, 4.0]]),
                  3: ([[0.0, 3.0], [10.0, 3.0]], [[0.0, 6.0], [10.0, 6.0]])},
     "overlapping": {1: ([[0.0, 0.0], [10.0, 0.0]], [[0.0, 3.0], [10.0, 3.0]]), 2: ([[5.0, -1.0], [12.0, 6.0]], [[2.0, 2.0], [9.0, 9.0]])},
+    "coincident": {1: ([[0.0, 0.0], [10.0, 0.0]], [[0.0, 3.0], [10.0, 3.0]]), 2: ([[0.0, 0.0], [10.0, 0.0]], [[0.0, 3.0], [10.0, 3.0]]),
+                   3: ([[10.0, 0.0], [20.0, 0.0]], [[10.0, 3.0], [20.0, 3.0]])},
     "curved": {1: ([[0.0, 0.0], [6.0, 0.0], [10.0, 4.0]], [[0.0, 3.0], [5.0, 3.0], [8.0, 6.0]]),
                2: ([[10.0, 4.0], [14.0, 8.0]], [[8.0, 6.0], [12.0, 10.0]])},
 }
